@@ -26,12 +26,13 @@ DECODERS = {
     'djinterop::engine::v1::quick_cues_data::decode': ('djinterop::engine::v1::quick_cues_data::decode(blob)', True, [E + 'v1/performance_data_format.cpp']),
     'djinterop::engine::v1::track_data::decode': ('djinterop::engine::v1::track_data::decode(blob)', True, [E + 'v1/performance_data_format.cpp']),
     'djinterop::engine::zlib_uncompress': ('djinterop::engine::zlib_uncompress(blob)', None, []),
+    # helpers in an anonymous namespace are reachable because the harness #includes the real .cpp; the buffer is an exactly
+    # sized heap vector, so a read past `end` is an ASan report
+    'djinterop::engine::v2::(anonymous namespace)::decode_beatgrid': ('djinterop::engine::v2::decode_beatgrid(blob.data(), blob.data() + blob.size())', False, [E + 'v2/beat_data_blob.cpp']),
+    'djinterop::engine::v1::(anonymous namespace)::decode_beatgrid': ('djinterop::engine::v1::decode_beatgrid(blob.data(), blob.data() + blob.size())', False, [E + 'v1/performance_data_format.cpp']),
 }
 # helpers are replayed through the public decoder that reaches them
-VIA = {
-    'djinterop::engine::v2::(anonymous namespace)::decode_beatgrid': 'djinterop::engine::v2::beat_data_blob::from_blob',
-    'djinterop::engine::v1::(anonymous namespace)::decode_beatgrid': 'djinterop::engine::v1::beat_data::decode',
-}
+VIA = {}
 
 
 def trace_inputs(trace_text):
@@ -273,7 +274,7 @@ def replay_decoder(pid, P, specs, r, failed, outdir):
     call, compressed, tus = DECODERS[top_key]
     # counterexample on the replay variant of the (public) decoder's harness, for the failed obligations
     info = r.info if top_key == key else cbmcdrv.build_check(P, specs, top_key, outdir)
-    names = [o['name'] for o in failed if o['class'] not in ('loop_invariant_base', 'loop_invariant_step', 'loop_assigns', 'loop_decreases')]
+    names = [o for o in failed if o['class'] not in ('loop_invariant_base', 'loop_invariant_step', 'loop_assigns', 'loop_decreases')]
     res = cbmcdrv.run_cbmc(info, timeout=300, defs=('VERIF_CBMC', 'VERIF_ABSTRACT', 'VERIF_REPLAY', 'VERIF_MAXBUF=96UL'), unwind=10, unwind_assert=False,
                            tag='.replay', trace_props=names if top_key == key else [], extra=(['--trace'] if top_key != key else []))
     ins = trace_inputs(res.get('trace_text', ''))
